@@ -465,3 +465,128 @@ Proof.
   revert n nc nr na; induction l as [|d l IH]; intros n nc nr na; [constructor|].
   simpl. constructor; [unfold chain_size; lia|]. eapply within_weaken; [| |apply IH]; unfold chain_size; lia.
 Qed.
+
+(* ------------------------------------------------------------------ chain-wise lists read off a walk *)
+Lemma chainwise_of_walk h cs w :
+  mapM (walk_chain h) cs = Some w ->
+  chainwise_residues h cs = concat (map (fun cw => c_res (fst cw)) w) /\
+  chainwise_atoms h cs = map fst (walk_atoms w).
+Proof.
+  revert w; induction cs as [|c cs IH]; intros w H.
+  - inversion H; subst. split; reflexivity.
+  - apply mapM_cons_some in H. destruct H as [cw [wr [Hc [Hl ->]]]].
+    destruct (IH _ Hl) as [IH1 IH2].
+    unfold walk_chain in Hc. inv_bind Hc. inv_bind Hc. inversion Hc; subst cw; clear Hc.
+    unfold chainwise_atoms, chainwise_residues in *. simpl. rewrite E. simpl.
+    split; [f_equal; exact IH1|].
+    rewrite map_app, concat_app. unfold walk_atoms. simpl. rewrite map_app.
+    f_equal; [|exact IH2].
+    clear - E0. revert x1 E0. generalize (c_res x0). induction l as [|r l IHl]; intros x1 E0.
+    + inversion E0; reflexivity.
+    + apply mapM_cons_some in E0. destruct E0 as [[rr A] [br [Hb [Hl ->]]]].
+      apply walk_res_inv in Hb. destruct Hb as [G [Hat _]].
+      simpl. rewrite G, Hat, map_app. f_equal. apply IHl. exact Hl.
+Qed.
+
+Lemma walk_of_layout h L :
+  (forall x cw, In (x, cw) L -> walk_chain h x = Some cw) -> mapM (walk_chain h) (map fst L) = Some (map snd L).
+Proof. apply mapM_pairs. Qed.
+
+Lemma walk_atoms_layout L : walk_atoms (map snd L) = lay_chain_atoms L.
+Proof. unfold walk_atoms, lay_chain_atoms. rewrite map_map. reflexivity. Qed.
+
+Lemma lay_chain_res_eq L : concat (map (fun cw => c_res (fst cw)) (map snd L)) = lay_chain_res L.
+Proof. unfold lay_chain_res. rewrite map_map. reflexivity. Qed.
+
+Lemma renum_atoms_length na l : length (renum_atoms na l) = length l.
+Proof. revert na; induction l; intros; simpl; auto. Qed.
+Lemma renum_atoms_idem na l : renum_atoms na (renum_atoms na l) = renum_atoms na l.
+Proof. revert na; induction l as [|a l IH]; intros na; [reflexivity|]. simpl. rewrite IH. reflexivity. Qed.
+Lemma renum_res_length nr na l : length (renum_res nr na l) = length l.
+Proof. revert nr na; induction l; intros; simpl; auto. Qed.
+Lemma renum_res_natoms nr na l : natoms_vres (renum_res nr na l) = natoms_vres l.
+Proof.
+  unfold natoms_vres. revert nr na; induction l as [|r l IH]; intros; [reflexivity|].
+  simpl. rewrite renum_atoms_length, IH. reflexivity.
+Qed.
+Lemma renum_res_idem nr na l : renum_res nr na (renum_res nr na l) = renum_res nr na l.
+Proof.
+  revert nr na; induction l as [|r l IH]; intros nr na; [reflexivity|].
+  simpl. rewrite renum_atoms_length, renum_atoms_idem, IH. reflexivity.
+Qed.
+Lemma renum_chains_idem nc nr na l : renum_chains nc nr na (renum_chains nc nr na l) = renum_chains nc nr na l.
+Proof.
+  revert nc nr na; induction l as [|c l IH]; intros nc nr na; [reflexivity|].
+  simpl. rewrite renum_res_length, renum_res_natoms, renum_res_idem, IH. reflexivity.
+Qed.
+
+(* ------------------------------------------------------------------ the theorems about copy() *)
+Section CopyFix.
+  Variables (h : heap) (t : topo) (h' : heap) (t' : topo).
+  Hypothesis Hwfo : wfo h t.
+  Hypothesis Hcopy : copy flags_fix h t = Some (h', t').
+
+  (* copy() preserves every atom, residue, chain (ids included) and bond *)
+  Lemma copy_abs : abs h' t' = abs h t.
+  Proof.
+    destruct Hwfo as [Hw [w [Hwalk [Hn [Hnd [_ [_ [_ [_ Hb]]]]]]]]].
+    destruct (copy_fix_struct h t w h' t' Hw Hwalk Hn Hnd Hb Hcopy)
+      as [Hw' [Hag [_ [HLw [Hc [_ [_ [_ [_ [Hbonds _]]]]]]]]]].
+    unfold abs. rewrite Hc, Hbonds.
+    rewrite (abs_chains_walk _ _ _ (walk_of_layout _ _ HLw)).
+    unfold walk in Hwalk. rewrite (abs_chains_walk _ _ _ Hwalk).
+    rewrite map_map, lay_chains_abs. unfold normal in Hn. rewrite Hn. reflexivity.
+  Qed.
+
+  (* nothing that existed before the copy is modified *)
+  Lemma copy_frame : agree (h_next h) h h'.
+  Proof.
+    destruct Hwfo as [Hw [w [Hwalk [Hn [Hnd [_ [_ [_ [_ Hb]]]]]]]]].
+    destruct (copy_fix_struct h t w h' t' Hw Hwalk Hn Hnd Hb Hcopy) as [_ [Hag _]]. exact Hag.
+  Qed.
+
+  (* every object the copy can reach was allocated by the copy *)
+  Lemma copy_fresh : forall l, In l (reach h' t') -> h_next h <= l.
+  Proof.
+    destruct Hwfo as [Hw [w [Hwalk [Hn [Hnd [_ [_ [_ [_ Hb]]]]]]]]].
+    destruct (copy_fix_struct h t w h' t' Hw Hwalk Hn Hnd Hb Hcopy)
+      as [Hw' [Hag [_ [HLw [Hc [Hr [Ha [_ [_ [_ Hbe]]]]]]]]]].
+    set (L := lay_chains (h_next h) 0 0 0 (copy_desc true w)) in *.
+    destruct (chainwise_of_walk _ _ _ (walk_of_layout _ _ HLw)) as [CR CA].
+    rewrite lay_chain_res_eq in CR. rewrite walk_atoms_layout in CA.
+    assert (B1 : forall l, In l (map fst L) -> h_next h <= l).
+    { intros l Hin. pose proof (lay_chains_locs_within (h_next h) 0 0 0 (copy_desc true w)) as W.
+      unfold within in W. rewrite Forall_forall in W. apply W in Hin. lia. }
+    assert (B2 : forall l, In l (lay_chain_res L) -> h_next h <= l).
+    { intros l Hin. pose proof (lay_chain_res_within (h_next h) 0 0 0 (copy_desc true w)) as W.
+      unfold within in W. rewrite Forall_forall in W. apply W in Hin. lia. }
+    assert (B3 : forall l, In l (map fst (lay_chain_atoms L)) -> h_next h <= l).
+    { intros l Hin. destruct (lay_chain_atoms_sorted (h_next h) 0 0 0 (copy_desc true w)) as [_ W].
+      unfold within in W. rewrite Forall_forall in W. apply W in Hin. lia. }
+    intros l Hin. unfold reach in Hin. rewrite Hc, Hr, Ha, CR, CA in Hin.
+    repeat (apply in_app_or in Hin; destruct Hin as [Hin|Hin]); auto.
+    unfold bond_ends in Hin. apply in_concat in Hin. destruct Hin as [ends [He Hin]].
+    apply in_map_iff in He. destruct He as [b [<- Hbin]].
+    destruct (Hbe b Hbin) as [E1 [E2 _]].
+    destruct Hin as [<-|[<-|[]]]; auto.
+  Qed.
+
+  (* the copy and (still) the source are well formed in the new heap *)
+  Lemma copy_wfo : wfo h' t' /\ wfo h' t.
+  Proof.
+    pose proof Hwfo as Hwfo0.
+    destruct Hwfo as [Hw [w [Hwalk [Hn [Hnd [_ [_ [_ [_ Hb]]]]]]]]].
+    destruct (copy_fix_struct h t w h' t' Hw Hwalk Hn Hnd Hb Hcopy)
+      as [Hw' [Hag [_ [HLw [Hc [Hr [Ha [Hna [Hnr [_ Hbe]]]]]]]]]].
+    set (L := lay_chains (h_next h) 0 0 0 (copy_desc true w)) in *.
+    split; [|exact (wfo_agree h h' t Hwfo0 Hw' Hag)].
+    split; [exact Hw'|]. exists (map snd L).
+    split; [unfold walk; rewrite Hc; apply walk_of_layout; exact HLw|].
+    split; [unfold normal; rewrite map_map; unfold L; rewrite lay_chains_abs; apply renum_chains_idem|].
+    rewrite walk_atoms_layout, lay_chain_res_eq.
+    split; [eapply sorted_in_nodup; apply lay_chain_atoms_sorted|].
+    split; [exact Ha|]. split; [exact Hr|].
+    split; [rewrite Hna, Ha; reflexivity|]. split; [rewrite Hnr, Hr; reflexivity|].
+    exact Hbe.
+  Qed.
+End CopyFix.
